@@ -198,9 +198,18 @@ def run_case(ctx, case):
 
     req = cropkit.requested_settings(w)
     swept = (w["names"] or []) + [a for a, _ in w["combos"]]
-    subsets = [s for r in range(1, B) for s in itertools.combinations(range(1, B + 1), r)]
-    if case.get("sample_subsets") and len(subsets) > case["sample_subsets"]:
-        subsets = ctx.rng("subsets", case.get("sseed", 0)).sample(subsets, case["sample_subsets"])
+    if case.get("sample_subsets") and B > 10:
+        # (2**B subsets cannot be listed: draw the sample directly)
+        srng = ctx.rng("subsets", case.get("sseed", 0))
+        subsets = []
+        while len(subsets) < case["sample_subsets"]:
+            S_ = tuple(sorted(srng.sample(range(1, B + 1), srng.randint(1, B - 1))))
+            if S_ not in subsets:
+                subsets.append(S_)
+    else:
+        subsets = [s for r in range(1, B) for s in itertools.combinations(range(1, B + 1), r)]
+        if case.get("sample_subsets") and len(subsets) > case["sample_subsets"]:
+            subsets = ctx.rng("subsets", case.get("sseed", 0)).sample(subsets, case["sample_subsets"])
 
     def present(S):
         for i in range(1, B + 1):
